@@ -6,13 +6,14 @@ import subprocess
 
 from . import core
 from .sweep34 import cflags, lit128, target_expr
+from .c05_model import SHAPES
 
 SAN = ["-fsanitize=undefined,float-cast-overflow,unsigned-integer-overflow",
        "-fno-sanitize=vptr,function", "-fsanitize-minimal-runtime", "-fsanitize-recover=all",
        "-fno-sanitize-link-runtime"]
 
 KINDS = ["cleared-undefined", "cleared-wrong-value", "ovf-unjustified", "uncastable-not-lossy",
-         "cleared-truncates", "ub-in-cleared-checker", "ub-in-conversion"]
+         "cleared-truncates", "ub-in-cleared-checker", "ub-in-conversion", "fp-scale-wrong"]
 
 RUN_TEMPLATE = r'''
 #include "c05_report.hh"
@@ -38,18 +39,18 @@ struct Results {
     int n;
 };
 template <typename I>
-void exec_rc(BoolC<true>, au::Quantity<au::Meters, typename I::S> q, Results<I> &r) {
+void exec_rc(BoolC<true>, au::Quantity<typename I::Src, typename I::S> q, Results<I> &r) {
     r.form[r.n] = "rep_cast<T>";
-    r.v[r.n++] = au::rep_cast<typename I::T>(q).in(au::Meters{});
+    r.v[r.n++] = au::rep_cast<typename I::T>(q).in(typename I::Src{});
 }
 template <typename I>
-void exec_rc(BoolC<false>, au::Quantity<au::Meters, typename I::S>, Results<I> &) {}
+void exec_rc(BoolC<false>, au::Quantity<typename I::Src, typename I::S>, Results<I> &) {}
 // all five spellings of the rep-changing conversion; returns the UBSan events seen while they ran
 template <typename I>
 vf5::UbSnap exec_all(typename I::S x, Results<I> &r) {
     typedef typename I::T T;
     typename I::Target target{};
-    const auto q = au::meters(x);
+    const auto q = au::make_quantity<typename I::Src>(x);
     const vf5::UbSnap u0 = vf5::ub_now();
     r.n = 0;
     r.form[r.n] = "coerce_in<T>";
@@ -66,7 +67,7 @@ vf5::UbSnap exec_all(typename I::S x, Results<I> &r) {
 // stage 2 for a floating common type: the library's own same-rep conversion, taken as given
 template <typename I>
 typename I::C lib_scale(typename I::S x) {
-    return au::meters(static_cast<typename I::C>(x)).coerce_in(typename I::Target{});
+    return au::make_quantity<typename I::Src>(static_cast<typename I::C>(x)).coerce_in(typename I::Target{});
 }
 inline void after_exec(Ctx &c, const Val &x, bool lt, bool lo, bool ll, const vf5::UbSnap &u, const Det &d) {
     ++c.st.n_exec;
@@ -77,6 +78,18 @@ inline void wrong(Ctx &c, const Val &x, bool lt, bool lo, bool ll, Det d, const 
     d.form = form; d.why = why; d.has_got = true; d.got = got;
     if (expect) { d.has_expect = true; d.expect = *expect; }
     vf5::emit(c, vf5::K_WRONG, x, lt, lo, ll, d);
+}
+
+// floating common type: the library's scaled value y against the exact x*N/D.  The statement takes the
+// "computed floating result" as given, so only a result that is not a scaling by the factor at all
+// (more than 64 ulp(C) away) is a violation; (4, 64] ulp is a counted don't-care band.
+template <typename I>
+inline void fp_scale(Ctx &c, const Val &xv, typename I::C xc, typename I::C y, bool lt, bool lo, bool ll, const Det &d) {
+    const double u = vf5::fp_scale_ulps<typename I::C>(xc, I::N, I::D, y);
+    if (u < 0) return;
+    if (u > c.st.max_fpscale) c.st.max_fpscale = u;
+    if (u > 64.0) { Det e = d; e.why = "stage2-not-x*N/D"; vf5::emit(c, vf5::K_FPSCALE, xv, lt, lo, ll, e); }
+    else if (u > 4.0) ++c.st.band_fpscale;
 }
 
 // ---- judges ------------------------------------------------------------------------------------
@@ -91,6 +104,7 @@ void judge(Ctx &c, typename I::S x, bool lt, bool lo, bool ll, const vf5::UbSnap
     if (lo && !s.some_stage_leaves_range()) vf5::emit(c, vf5::K_OVF, xv, lt, lo, ll, d);
     if (s.st1_in && s.band) ++c.st.n_band;
     if (!s.all_defined_exact()) ++c.st.n_must;
+    else if (lt) ++c.st.n_trunc_unjust;   // recorded: the statement does not forbid over-reporting truncation
     if (vf5::account(c, xv, lt, lo, ll, ubc, d)) return;
     if (!s.all_defined_exact()) { vf5::emit(c, vf5::K_UNDEF, xv, lt, lo, ll, d); return; }   // never executed
     const T expect = s.neg ? static_cast<T>(-(i128)s.q) : static_cast<T>(s.q);   // st3_in: fits T
@@ -110,8 +124,12 @@ void judge(Ctx &c, typename I::S x, bool lt, bool lo, bool ll, const vf5::UbSnap
     Det d;
     d.has_y = true;
     d.y = vf5::val(y);
-    // |x*N/D| < 2^64 * 2^31 < FLT_MAX: no stage of an integral source can leave a floating range
-    if (lo) vf5::emit(c, vf5::K_OVF, xv, lt, lo, ll, d);
+    // overflow may be reported only when x*N/D really leaves the range of T (possible for float only:
+    // 2^64 * (2^64-59) > FLT_MAX); within 8 eps below max(T) it is a don't-care (two roundings)
+    if (lo) {
+        if (vf5::int_to_fp_clearly_in_range<T>(x, I::N, I::D)) vf5::emit(c, vf5::K_OVF, xv, lt, lo, ll, d);
+        else ++c.st.n_band;
+    }
     if (vf5::account(c, xv, lt, lo, ll, ubc, d)) return;
     if (!vf5::finite(y)) { vf5::emit(c, vf5::K_UNDEF, xv, lt, lo, ll, d); return; }
     Results<I> r;
@@ -138,10 +156,17 @@ void judge(Ctx &c, typename I::S x, bool lt, bool lo, bool ll, const vf5::UbSnap
     d.y = vf5::val(y);
     const bool xfin = vf5::finite(x);
     if (!xfin) ++c.st.n_nonfinite;
+    fp_scale<I>(c, xv, static_cast<C>(x), y, lt, lo, ll, d);
     const C tmaxc = static_cast<C>(std::numeric_limits<T>::max());   // C contains T: exact
     const bool y_in_t = vf5::finite(y) && y <= tmaxc && y >= -tmaxc;
-    if (xfin && !y_in_t) ++c.st.n_must;
+    // max(T) < |y| < max(T) + ulp(max(T))/2: a round-to-nearest cast yields max(T); whether such a value
+    // is "in range" is a matter of reading [conv.double] -> don't-care (C wider than T: the sum is exact)
+    const C half_ulp = std::ldexp(C(1), std::numeric_limits<T>::max_exponent - std::numeric_limits<T>::digits - 1);
+    const bool y_band3 = vf5::finite(y) && !y_in_t && !std::is_same<C, T>::value &&
+                         (y < 0 ? -y : y) < tmaxc + half_ulp;
+    if (xfin && !y_in_t && !y_band3) ++c.st.n_must;
     if (vf5::account(c, xv, lt, lo, ll, ubc, d)) return;
+    if (xfin && y_band3) { ++c.st.band_stage3; return; }   // cleared inside the band: not judged, not executed
     if (xfin && !vf5::finite(y)) {
         // finite input, scaling left the range of C.  Don't-care band: |x|*N/D <= max(C)*(1+8eps)
         const long double ax = std::fabs(static_cast<long double>(x));
@@ -179,9 +204,11 @@ void judge(Ctx &c, typename I::S x, bool lt, bool lo, bool ll, const vf5::UbSnap
     d.has_y = true;
     d.y = vf5::val(y);
     if (!vf5::finite(x)) ++c.st.n_nonfinite;
+    fp_scale<I>(c, xv, static_cast<C>(x), y, lt, lo, ll, d);
     const bool cast_ok = vf5::castable<T>(y);
     const bool integral = vf5::integral_valued(y);
     if (!cast_ok || !integral) ++c.st.n_must;
+    else if (lt) ++c.st.n_trunc_unjust;
     if (!cast_ok && !ll) vf5::emit(c, vf5::K_UNCAST, xv, lt, lo, ll, d);   // never executed
     if (vf5::account(c, xv, lt, lo, ll, ubc, d)) return;
     if (!cast_ok) return;
@@ -201,7 +228,7 @@ template <typename I>
 inline void eval_one(Ctx &c, typename I::S x) {
     typedef typename I::T T;
     typename I::Target target{};
-    const auto q = au::meters(x);
+    const auto q = au::make_quantity<typename I::Src>(x);
     const vf5::UbSnap u0 = vf5::ub_now();
     const bool lt = au::will_conversion_truncate<T>(q, target);
     const bool lo = au::will_conversion_overflow<T>(q, target);
@@ -221,7 +248,10 @@ template <typename I>
 Ctx make_ctx(int id, int show) {
     static_assert(std::is_same<typename I::C, std::common_type_t<typename I::S, typename I::T>>::value,
                   "independent common-type table disagrees with the compiler's std::common_type");
-    return Ctx(id, show, I::sname(), I::tname(), I::cname(), I::N, I::D);
+    Ctx c(id, show, I::sname(), I::tname(), I::cname(), I::N, I::D);
+    c.shape = I::shape();
+    c.wrap_defined = vf5::wrap_defined<typename I::C>();
+    return c;
 }
 
 // integral source: inclusive intervals
@@ -270,16 +300,17 @@ void run_f32(int id, int show, std::uint32_t lo, std::uint32_t hi) {
 
 
 def emit_tu(path, insts, jobs):
-    """insts: {iid: (S, T, C, N, D)}; jobs: list of (iid, mode, arg):
+    """insts: {iid: (S, T, C, N, D, U)} (U = index into c05_model.SHAPES); jobs: list of (iid, mode, arg):
     ('iv', [(lo,hi),..]) | ('fpset', tier_int) | ('fpbits', [hex,..]) | ('f32', (lo,hi))."""
     out = [RUN_TEMPLATE, "namespace {"]
     for iid in sorted(insts):
-        s, t, c, n, d = insts[iid]
-        out.append("struct I%d { typedef %s S; typedef %s T; typedef %s C; "
+        s, t, c, n, d, u = insts[iid]
+        label, src, tgt = SHAPES[u][:3]
+        out.append("struct I%d { typedef %s S; typedef %s T; typedef %s C; typedef %s Src; "
                    "static constexpr std::uint64_t N = %dull, D = %dull; typedef %s Target; "
                    "static const char *sname() { return \"%s\"; } static const char *tname() { return \"%s\"; } "
-                   "static const char *cname() { return \"%s\"; } };"
-                   % (iid, s, t, c, n, d, target_expr(n, d), s, t, c))
+                   "static const char *cname() { return \"%s\"; } static const char *shape() { return \"%s\"; } };"
+                   % (iid, s, t, c, src, n, d, tgt or target_expr(n, d), s, t, c, label))
     body = []
     for k, (iid, mode, arg, show) in enumerate(jobs):
         if mode == "iv":
